@@ -35,6 +35,8 @@ structure Config where
   scripts : List (List Op)
   nOps : Nat
   nJoins : Nat
+  /-- model `unifex::v0::async_scope` instead (see Proto/ScopeV0.lean) -/
+  v0 : Bool := false
 
 /-- phases as in ScopeV2: 0 undecided, 1 admitted, 2 leaf started, 3 leaf completing, 4 outer
     receiver completed, 5 released, 6 rejected. -/
@@ -136,7 +138,7 @@ def stepJoin (s : St) (t : Nat) (j : Nat) : Option (Lbl × St) :=
     else some (tau t, setThr s t { th with x := topOf s.waiters })
 
 /-- `request_stop()`; pcs 1..12; `fin` = what happens when it returns -/
-def stepStop (s : St) (t : Nat) (fin : St → Lbl × St) : Option (Lbl × St) :=
+def stepStop (cfg : Config) (s : St) (t : Nat) (fin : St → Lbl × St) : Option (Lbl × St) :=
   let th := getThr s t
   let i := th.y
   let o := getOp s i
@@ -150,8 +152,12 @@ def stepStop (s : St) (t : Nat) (fin : St → Lbl × St) : Option (Lbl × St) :=
     match s.cbList with
     | [] => some (fin s)
     | k :: rest =>
-      let s1 := setOp { s with cbList := rest } k { getOp s k with reg := 2 }
-      some (tau t, setThr s1 t { th with pc := 6, y := k })
+      if cfg.v0 then  -- v0: the registered callbacks are the leaves' own
+        let s1 := setOp { s with cbList := rest } k { getOp s k with leafReg := 2, stopSeen := true }
+        some (ev t s!"op{k}.stop", setThr s1 t { th with pc := 8, y := k })
+      else
+        let s1 := setOp { s with cbList := rest } k { getOp s k with reg := 2 }
+        some (tau t, setThr s1 t { th with pc := 6, y := k })
   | 6 =>  -- attach op request_stop(): refcount_ CAS 1 → 2
     if o.refc = 1 then some (tau t, goto (setOp s i { o with refc := 2 }) t 7)
     else some (tau t, goto (setOp s i { o with reg := 3 }) t 5)
@@ -159,7 +165,7 @@ def stepStop (s : St) (t : Nat) (fin : St → Lbl × St) : Option (Lbl × St) :=
     if o.leafReg = 1 then
       some (ev t s!"op{i}.stop", goto (setOp s i { o with opStop := true, leafReg := 2, stopSeen := true }) t 8)
     else some (tau t, goto (setOp s i { o with opStop := true }) t 9)
-  | 8 => some (tau t, goto (setOp s i { o with leafReg := 3 }) t 9)
+  | 8 => some (tau t, goto (setOp s i { o with leafReg := 3 }) t (if cfg.v0 then 5 else 9))
   | 9 =>  -- try_complete(): refcount_.fetch_sub(1)
     if o.refc = 2 then some (tau t, goto (setOp s i { o with refc := 1, reg := 3 }) t 5)
     else some (ev t s!"op{i}.finished", goto (setOp s i { o with refc := 0, reg := 4, phase := 4 }) t 10)
@@ -184,11 +190,14 @@ def stepThr (cfg : Config) (s : St) (t : Nat) : Option (Lbl × St) :=
         some (tau t, goto (setOp { s with count := s.count + 1 } i { o with phase := 1 }) t 3)
       else some (tau t, setThr s t { th with x := b2n s.ended, y := s.count })
     | 3 =>  -- start of the attach op: register its callback with the scope's stop source
-      if s.stopReq then some (tau t, goto (setOp s i { o with opStop := true, reg := 3 }) t 4)
+      if cfg.v0 then some (tau t, goto s t 4)
+      else if s.stopReq then some (tau t, goto (setOp s i { o with opStop := true, reg := 3 }) t 4)
       else some (tau t, goto (setOp { s with cbList := i :: s.cbList } i { o with reg := 1 }) t 4)
     | 4 => some (ev t s!"op{i}.start", goto (setOp s i { o with phase := 2 }) t 5)
-    | _ =>  -- the leaf registers its callback with the attach op's stop source
-      if o.opStop then
+    | _ =>  -- the leaf registers its callback with the attach op's stop source (v0: the scope's)
+      if cfg.v0 && !s.stopReq then
+        some (tau t, ret (setOp { s with cbList := i :: s.cbList } i { o with leafReg := 1, ret := true }) t)
+      else if o.opStop || cfg.v0 then
         some (ev t s!"op{i}.stop", ret (setOp s i { o with leafReg := 3, stopSeen := true, ret := true }) t)
       else some (tau t, ret (setOp s i { o with leafReg := 1, ret := true }) t)
   | some (.fire i) =>
@@ -200,7 +209,10 @@ def stepThr (cfg : Config) (s : St) (t : Nat) : Option (Lbl × St) :=
       else none
     | 1 =>  -- the leaf deregisters its callback (blocks while it runs on the notifying thread)
       if o.leafReg = 2 then none
-      else some (tau t, goto (setOp s i { o with leafReg := if o.leafReg = 1 then 4 else o.leafReg }) t 2)
+      else
+        let s0 := if cfg.v0 then { s with cbList := s.cbList.erase i } else s
+        -- v0: no attach op, no receiver of ours: straight to record_done
+        some (tau t, goto (setOp s0 i { o with leafReg := if o.leafReg = 1 then 4 else o.leafReg }) t (if cfg.v0 then 4 else 2))
     | 2 =>  -- attach receiver: try_complete(): refcount_.fetch_sub(1)
       if o.refc = 2 then some (tau t, ret (setOp s i { o with refc := 1 }) t)
       else some (tau t, goto (setOp s i { o with refc := 0 }) t 3)
@@ -222,11 +234,12 @@ def stepThr (cfg : Config) (s : St) (t : Nat) : Option (Lbl × St) :=
     | _ => stepJoin s t j
   | some (.cleanup j) =>
     if th.pc = 0 then some (ev t s!"join{j}.begin", goto { s with jbegun := bump s.jbegun j } t 1)
-    else if th.pc ≤ 12 then stepStop s t (fun z => (tau t, goto { z with stopRet := true } t 21))
+    else if th.pc ≤ 12 then  -- v1: request_stop() then scope_.join(); v0: request_stop() then wait
+      stepStop cfg s t (fun z => (tau t, goto { z with stopRet := true } t (if cfg.v0 then 24 else 21)))
     else stepJoin s t j
   | some .stop =>
     if th.pc = 0 then some (ev t "stop.begin", goto s t 1)
-    else stepStop s t (fun z => (ev t "stop.end", ret { z with stopRet := true } t))
+    else stepStop cfg s t (fun z => (ev t "stop.end", ret { z with stopRet := true } t))
 
 def sys (cfg : Config) : LSys St Lbl where
   init := init cfg
@@ -315,13 +328,13 @@ def coded : Coded St :=
 /-! ### the scenario configurations (mirrored by harness/rt/scn_c08.cpp) -/
 
 /-- T1 nests, starts and completes op0; T2 runs complete(). -/
-def cfgComplete : Config := ⟨[[], [.spawn 0, .fire 0], [.join 0]], 1, 1⟩
+def cfgComplete : Config := ⟨[[], [.spawn 0, .fire 0], [.join 0]], 1, 1, false⟩
 /-- T0 nests op0 and runs cleanup(); T1 completes op0. -/
-def cfgCleanup : Config := ⟨[[.spawn 0, .cleanup 0], [.fire 0]], 1, 1⟩
+def cfgCleanup : Config := ⟨[[.spawn 0, .cleanup 0], [.fire 0]], 1, 1, false⟩
 /-- T0 nests op0 and runs complete(); T1 completes op0; T2 calls request_stop(). -/
-def cfgStopJoin : Config := ⟨[[.spawn 0, .join 0], [.fire 0], [.stop]], 1, 1⟩
+def cfgStopJoin : Config := ⟨[[.spawn 0, .join 0], [.fire 0], [.stop]], 1, 1, false⟩
 /-- request_stop() racing with the admission and start of op0 (T1); T0 then runs complete(). -/
-def cfgStopSpawn : Config := ⟨[[.stop, .join 0], [.spawn 0, .fire 0]], 1, 1⟩
+def cfgStopSpawn : Config := ⟨[[.stop, .join 0], [.spawn 0, .fire 0]], 1, 1, false⟩
 
 def configs : List (String × Config) :=
   [("v1_complete", cfgComplete), ("v1_cleanup", cfgCleanup), ("v1_stop_join", cfgStopJoin),
